@@ -116,6 +116,14 @@ const stubNetspoc = `#!/bin/sh
 if [ -n "$VH_ORPHAN" ] && [ -e "$VH_ORPHAN" ]; then . "$VH_TOOLS/orphan.sh"; fi
 mkdir -p "$2"
 rm -f "$2/COMPILED"
+if [ -n "$VH_GROUP" ] && [ -e "$VH_GROUP" ]; then
+  # the whole process group is killed while the compiler is half way: the file of the first device
+  # is written, no stamp; then the script and this child die (nobody keeps fd 9)
+  read VHP < "$VH_GROUP"; rm -f "$VH_GROUP"
+  r=$(sed -n 's/^router:\([A-Za-z0-9_]*\) .*/\1/p' "$1/topology" | head -n 1)
+  [ -n "$r" ] && grep "^router:$r " "$1/topology" > "$2/$r"
+  kill -9 "$VHP" $$
+fi
 if [ -e "$1/BAD" ]; then echo "Error: BAD"; echo Aborted; exit 1; fi
 sed -n 's/^router:\([A-Za-z0-9_]*\) .*/\1/p' "$1/topology" | while read r; do
   grep "^router:$r " "$1/topology" > "$2/$r"
@@ -195,7 +203,7 @@ func (sb *sandbox) env(extra ...string) []string {
 		"PATH=" + sb.t.bin + ":" + filepath.Join(sb.t.repo, "bin") + ":/usr/local/bin:/usr/bin:/bin",
 		"GIT_CONFIG_NOSYSTEM=1", "LC_ALL=C", "LANG=C", "TZ=UTC",
 		"VH_BIN=" + sb.t.self, "VH_SB=" + sb.dir, "VH_TOOLS=" + sb.t.root, "VH_REPO=" + sb.t.repo, "VH_GIT=" + gitBin,
-		"VH_GITFN=" + b2s(sb.t.gitFn), "VH_ORPHAN=" + filepath.Join(sb.dir, "orphan.marker"),
+		"VH_GITFN=" + b2s(sb.t.gitFn), "VH_ORPHAN=" + filepath.Join(sb.dir, "orphan.marker"), "VH_GROUP=" + filepath.Join(sb.dir, "group.marker"),
 	}
 	return append(e, extra...)
 }
@@ -570,6 +578,16 @@ func hookMain(args []string) int {
 		case act == "K":
 			syscall.Kill(pid, syscall.SIGKILL)
 			return 0
+		case act == "G":
+			// kill the whole process group while the compiler is half way (the stub compiler does it
+			// itself, see stubNetspoc); for every other command the group kill is a kill of the script
+			// before the command
+			if f := strings.Fields(normCmd(cmdText)); len(f) == 0 || f[0] != "netspoc" {
+				syscall.Kill(pid, syscall.SIGKILL)
+				return 0
+			}
+			os.WriteFile(os.Getenv("VH_GROUP"), []byte(fmt.Sprintf("%d\n", pid)), 0644)
+			return 0
 		case act == "O" || act == "On":
 			// kill the script while the child process of its next command runs: possible only for
 			// commands that have a child; the shim of that command does it (marker file)
@@ -647,6 +665,7 @@ type obs struct {
 	CurOK   bool   // link target exists
 	Next    *dirObs
 	NextSrc bool
+	NextDirty bool // next/code holds output of a compiler run (complete or not)
 	Failed  bool
 	Lock    bool
 	Dirs    []dirObs
@@ -841,6 +860,13 @@ func (sb *sandbox) observe() *obs {
 	if _, err := os.Stat(filepath.Join(pdb, "next")); err == nil {
 		d, hasSrc := sb.observeDir(filepath.Join(pdb, "next"), o.Remote.Hash)
 		o.Next, o.NextSrc = &d, hasSrc
+		if ents, err := os.ReadDir(filepath.Join(pdb, "next", "code")); err == nil {
+			for _, e := range ents {
+				if e.Type().IsRegular() && e.Name() != "COMPILED" {
+					o.NextDirty = true
+				}
+			}
+		}
 	}
 	_, err := os.Stat(filepath.Join(pdb, "failed"))
 	o.Failed = err == nil
@@ -868,7 +894,7 @@ func b2s(b bool) string {
 func (o *obs) show() string {
 	nx := "-"
 	if o.Next != nil {
-		nx = fmt.Sprintf("%s/%s/%s/%s", b2s(o.NextSrc), b2s(o.Next.Built && o.Next.SrcGoodOrUnknown()), o.Next.HeadPol, b2s(o.Next.HeadIsR))
+		nx = fmt.Sprintf("%s/%s/%s/%s/%s", b2s(o.NextSrc), b2s(o.Next.Built && o.Next.SrcGoodOrUnknown()), o.Next.HeadPol, b2s(o.Next.HeadIsR), b2s(o.NextDirty))
 	}
 	var ds []string
 	for _, d := range o.Dirs {
@@ -1144,6 +1170,9 @@ func runScenario(t *tools, name string, sc scenario, drv *Nadrv) *caseResult {
 					r.OrphanRan = true
 					cr.counts["orphan-finished-command"]++
 				}
+				if it.Act == "G" && it.K == len(r.Lines) && strings.HasPrefix(r.Cmds[it.K-1], "netspoc ") {
+					cr.counts["group-kill-inside-the-compiler"]++
+				}
 				if it.K <= len(r.Lines) {
 					cr.fired++
 					cr.counts["action-fired:"+strings.TrimRight(it.Act, "0123456789")]++
@@ -1373,6 +1402,8 @@ func genRun(rng *RNG) string {
 		return fmt.Sprintf("r:%d=n", genK(rng))
 	case x < 92:
 		return fmt.Sprintf("r:%d=nK%d", genK(rng), genK(rng))
+	case x < 94:
+		return fmt.Sprintf("r:%d=G", 30+rng.Intn(12))
 	case x < 96:
 		return fmt.Sprintf("r:%d=O", genK(rng))
 	default:
@@ -1406,6 +1437,10 @@ var corpus = []scenario{
 	{Kind: "seq", Events: []string{"r:", "c:g:-:1", "r:38=On", "r:", "c:g:-:1", "r:"}},
 	{Kind: "seq", Events: []string{"r:", "c:g:-:1", "r:47=On", "r:", "r:"}},
 	{Kind: "seq", Events: []string{"r:", "c:g:-:1", "r:38=O", "r:", "c:g:-:1", "r:"}},
+	// the whole process group is killed while the compiler is half way (partial output in next/code, lock free at once)
+	{Kind: "seq", Events: []string{"r:", "c:g:-:1", "r:38=G", "r:", "c:g:-:1", "r:"}},
+	{Kind: "seq", Events: []string{"r:", "c:b:-:1", "r:38=G", "r:38=G", "r:"}},
+	{Kind: "seq", SysEmail: true, Events: []string{"r:16=G", "c:g:-:1", "r:", "r:"}},
 	// F-C19: killed between push and promotion (second run: 47 = git push, 48 = git reset, 50 = mv, 51 = rm, 52 = ln)
 	{Kind: "seq", Events: []string{"r:", "c:g:-:1", "r:49=K", "r:", "r:"}},
 	// killed during the compile
@@ -1541,6 +1576,10 @@ func runC19(ctx *Ctx) *Result {
 				if ctx.Thorough() || k%4 == 1 {
 					evs3 := append(append([]string{}, b...), fmt.Sprintf("r:%d=O", k), "r:")
 					scs = append(scs, scenario{Kind: "seq", SysEmail: se, Events: evs3})
+				}
+				if ctx.Thorough() || k%8 == 6 {
+					evsG := append(append([]string{}, b...), fmt.Sprintf("r:%d=G", k), "r:", "c:g:-:1", "r:")
+					scs = append(scs, scenario{Kind: "seq", SysEmail: se, Events: evsG})
 				}
 				if ctx.Thorough() || k%4 == 3 {
 					evs4 := append(append([]string{}, b...), fmt.Sprintf("r:%d=On", k), "r:", "c:g:-:1", "r:")
